@@ -23,6 +23,8 @@ from .pymini import Unsupported
 
 HEADER = ("From Coq Require Import ZArith List String.\n"
           "From Bardic Require Import PyStr Value Compiled Engine PyMini EngineCheck Source SourceCheck.")
+HEADER_SP = ("From Coq Require Import ZArith List String.\n"
+             "From Bardic Require Import PyStr Value Compiled Source SourcePrint SourcePrintProofs.")
 INTS = ["a", "b", "c"]
 
 
@@ -363,6 +365,58 @@ def t_story(st):
     return f"(mkSS None {coq_list(ps)})"
 
 
+def ast_arg_strings(st):
+    """Every argument string of a choice or jump of the AST (the strings the compiler hands to `ast.parse`)."""
+    out = []
+
+    def choice(c):
+        if c[3]:
+            out.append(c[3])
+        for it in c[6]:
+            item(it)
+
+    def item(it):
+        k = it[0]
+        if k == "IJump" and it[2]:
+            out.append(it[2])
+        elif k == "IIf":
+            for _c, body, chs in it[1]:
+                for b in body:
+                    item(b)
+                for c in chs:
+                    choice(c)
+        elif k == "IFor":
+            for b in it[3]:
+                item(b)
+            for c in it[4]:
+                choice(c)
+
+    for _name, _params, body, choices in st:
+        for it in body:
+            item(it)
+        for _sec, c in choices:
+            choice(c)
+    return sorted(set(out))
+
+
+def t_call_table(args_list):
+    """ParseCheck.call_table: argument string -> (shape by Python's own parser, body is a Call node)."""
+    import ast as _ast
+    rows = []
+    for a in args_list:
+        try:
+            node = _ast.parse(f"_temp_({a})", mode="eval").body
+            if isinstance(node, _ast.Call):
+                kws = [k.arg for k in node.keywords if k.arg is not None]
+                shape = f"Some ({coq_nat(len(node.args))}, {coq_list(coq_str(k) for k in kws)})"
+                rows.append(f"({coq_str(a)}, ({shape}, true))")
+            else:
+                rows.append(f"({coq_str(a)}, (Some (0, []), false))")
+        except (SyntaxError, ValueError, RecursionError, MemoryError):
+            rows.append(f"({coq_str(a)}, (None, true))")
+    return coq_list(rows)
+
+
 def decorate(src, rng, stats):
     """Insert '#' comment lines (invisible by the reference) between lines, outside @py bodies."""
     out, in_py = [], False
@@ -396,6 +450,7 @@ def run(tier: str, seed: int) -> int:
     n_cases, n_hist = (130, 2) if tier == "quick" else (1300, 4)
     stats = {"compile_rejected": 0, "unsupported": 0, "constructs": {}, "file_vs_memory": 0, "histories": 0}
     cterms, cmeta, pterms, pmeta = [], [], [], []
+    tterms, tmeta, mterms = [], [], []
     tmp = tempfile.mkdtemp(prefix="bardic_verif_c01_")
 
     # pinned witness of F01c (fixed in b0767bb): glue inside @if before a directive line
@@ -416,7 +471,12 @@ def run(tier: str, seed: int) -> int:
             r = random.Random(sub)
             g = SrcGen(r, depth=2 if tier == "quick" else 3)
             ast_ = g.story()
-            src = decorate(print_story(ast_), random.Random(sub ^ 0x5EED), g.stats)
+            src0 = print_story(ast_)
+            # the Gallina twin of the printer (Story/SourcePrint.v) must print the same lines (before decoration)
+            tterms.append(f"({t_story(ast_)}, {coq_list(coq_str(l) for l in src0.split(chr(10)))})")
+            mterms.append(f"({t_story(ast_)}, {t_call_table(ast_arg_strings(ast_))})")
+            tmeta.append((sub, src0))
+            src = decorate(src0, random.Random(sub ^ 0x5EED), g.stats)
             for k_, v_ in g.stats.items():
                 stats["constructs"][k_] = stats["constructs"].get(k_, 0) + v_
 
@@ -484,6 +544,32 @@ def run(tier: str, seed: int) -> int:
                        {"subseed": sub, "story_source": src})
         else:
             chk.disagree("compile-coqc", "a case shard failed to evaluate", {"log": log[-1500:]})
+    # string level inside Coq: (a) print_story of the AST = the Python printer's lines; (b) where `printable` holds, the
+    # parser model run on the printed lines = compile_ref (proved for stories without @if/@for, checked here for all)
+    badt, shownt, logt = C.run_coq_cases(chk.scratch, HEADER_SP, tterms, "tcase", "print_case_bad", shard=40,
+                                         show_fn="print_case_show")
+    for b in badt:
+        if isinstance(b, int):
+            sub, src0 = tmeta[b]
+            chk.disagree("gallina-printer-differs-from-python-printer",
+                         "Story/SourcePrint.v print_story and harness/c01.py print_story give different lines for one AST: "
+                         + (shownt.get(b) or "")[:300], {"subseed": sub, "story_source": src0})
+        else:
+            chk.disagree("printer-coqc", "a case shard failed to evaluate", {"log": logt[-1500:]})
+    badm, shownm, logm = C.run_coq_cases(chk.scratch, HEADER_SP, mterms, "mcase", "mcase_bad", shard=40, show_fn="mcase_show")
+    for b in badm:
+        if isinstance(b, int):
+            sub, src0 = tmeta[b]
+            chk.disagree("parser-model-on-printed-text-differs-from-compile_ref",
+                         "a printable AST whose printed text the parser model does not compile to compile_ref: "
+                         + (shownm.get(b) or "")[:300], {"subseed": sub, "story_source": src0})
+        else:
+            chk.disagree("printable-coqc", "a case shard failed to evaluate", {"log": logm[-1500:]})
+    badu, _, logu = C.run_coq_cases(chk.scratch, HEADER_SP, mterms, "mcase", "mcase_unprintable", shard=40)
+    stats["printer_twin_compared"] = len(tterms)
+    stats["ast_not_printable"] = len([b for b in badu if isinstance(b, int)])
+    if any(not isinstance(b, int) for b in badu):
+        chk.disagree("printable-coqc", "a case shard failed to evaluate", {"log": logu[-1500:]})
     bad2, shown2, log2 = C.run_coq_cases(chk.scratch, HEADER, pterms, "pcase", "pcase_bad", shard=25, show_fn="pcase_show")
     for b in bad2:
         if isinstance(b, int):
@@ -495,7 +581,7 @@ def run(tier: str, seed: int) -> int:
         else:
             chk.disagree("play-coqc", "a case shard failed to evaluate", {"log": log2[-1500:]})
     chk.cov["programs"] = len(cterms)
-    chk.cov["disagreements_checked"] = len(cterms) + len(pterms)
+    chk.cov["disagreements_checked"] = len(cterms) + len(pterms) + len(tterms) + len(mterms)
     chk.cov["rule"] = ("source ASTs generated from the documented grammar (passages with parameters; text lines with {expr}, format specs, "
                        "inline conditionals, glue; blank lines; ~ and @py at top level and in blocks; @if/@elif/@else and @for nested to depth "
                        "2-3 with choices and jumps inside; @render/@input/@hook; @join sections with choice blocks), printed with 4-space "
